@@ -12,6 +12,7 @@ import (
 	"flag"
 	"fmt"
 	"io/ioutil"
+	"math/big"
 	"math/rand"
 	"os"
 	"os/exec"
@@ -67,6 +68,7 @@ type c10Case struct {
 	Txs       []string  `json:"txs,omitempty"` // descriptions with result codes
 	OwnStakeDiff []string `json:"own_stake_diff,omitempty"`
 	Quiet     int64     `json:"quiet"`
+	Staked    []c10KV   `json:"staked,omitempty"` // st__t_ totals (own stake) in the state committed by the previous block
 	Absent    []int     `json:"absent,omitempty"` // members of LastCommitInfo with SignedLastBlock=false
 	LastRefused string  `json:"last_refused,omitempty"` // the last transaction of the block was refused by Validate (cause)
 	Released  []int     `json:"released,omitempty"`  // validators whose RELEASE succeeded in this block
@@ -160,6 +162,10 @@ func c10Scen(r *rand.Rand, kind string) *c10Scenario {
 		fmt.Sscanf(kind, "absent_leaves:%d", &fixedVariant)
 		kind = "absent_leaves"
 	}
+	if strings.HasPrefix(kind, "restake_full:") {
+		fmt.Sscanf(kind, "restake_full:%d", &fixedVariant)
+		kind = "restake_full"
+	}
 	sc := &c10Scenario{Kind: kind, Min: 1000, Bvd: 4}
 	nv, ne := 1+r.Intn(4), r.Intn(9)
 	sc.Top = int64(1 + r.Intn(5))
@@ -174,6 +180,13 @@ func c10Scen(r *rand.Rand, kind string) *c10Scenario {
 		nv, ne, sc.Top, sc.Blocks, sc.Ties = 2, 1, 4, 14, false
 	case "frozen":
 		nv, ne, sc.Top, sc.Blocks, sc.Ties, sc.Bvd = 4, 0, 4, 10, false, 6
+	case "restake_full":
+		// full unstake at H-1, stake again at H (variants: 0 at H, 1 at H+1, 2 partial re-stake at H,
+		// 3 another validator stakes in between), then quiet blocks
+		nv, ne, sc.Top, sc.Blocks, sc.Ties = 3, 1, 5, 16, false
+		if fixedVariant >= 0 {
+			sc.Variant = fixedVariant
+		}
 	case "restake":
 		nv, ne, sc.Top, sc.Blocks, sc.Ties = 3, 0, 4, 9, false
 	case "absent_leaves":
@@ -300,6 +313,7 @@ type c10Gen struct {
 	frozenAt  int64 // kind "release": first height at which the target was seen frozen
 	released  bool
 	topped    bool
+	restakeNext []int
 }
 
 func (g *c10Gen) memo() string { g.nonce++; return fmt.Sprintf("c10m%d", g.nonce) }
@@ -400,6 +414,23 @@ func (g *c10Gen) block(h int64, rep *Replica) (BlockIn, []string) {
 			}
 		}
 		return in, descr
+	case "restake_full":
+		v := sc.Vals[1]
+		if h == 3 {
+			a := fmt.Sprintf("%d", g.stakeOf(d, v))
+			add(txUnstake(v, oltAmt(a), g.memo()), "unstake all val1 "+a)
+		}
+		if h == 4 && sc.Variant == 3 {
+			add(txStake(sc.Extra[0], oltAmt("1700"), g.memo()), "stake extra0 1700")
+		}
+		if (h == 4 && sc.Variant != 1) || (h == 5 && sc.Variant == 1) {
+			a := "1500"
+			if sc.Variant == 2 {
+				a = "1001"
+			}
+			add(txStake(v, oltAmt(a), g.memo()), "stake val1 again "+a)
+		}
+		return in, descr
 	case "restake":
 		// corpus case of the fixed finding C10.negative_power_record: unstake everything, stake again in
 		// the block whose EndBlock used to delete the record, later stake and unstake more than the new record
@@ -474,6 +505,10 @@ func (g *c10Gen) block(h int64, rep *Replica) (BlockIn, []string) {
 		return in, descr
 	}
 	// mixed / fork
+	for _, ci := range g.restakeNext { // stake again right after a full unstake
+		add(txStake(cands[ci], oltAmt("1500"), g.memo()), fmt.Sprintf("stake c%d 1500 (again after full unstake)", ci))
+	}
+	g.restakeNext = nil
 	n := r.Intn(4)
 	for i := 0; i < n; i++ {
 		ci := r.Intn(len(cands))
@@ -487,6 +522,9 @@ func (g *c10Gen) block(h int64, rep *Replica) (BlockIn, []string) {
 			a := g.amount()
 			if cur > 0 && r.Intn(2) == 0 {
 				a = fmt.Sprintf("%d", cur) // everything
+				if r.Intn(2) == 0 {
+					g.restakeNext = append(g.restakeNext, ci)
+				}
 			} else if cur > 1000 && r.Intn(2) == 0 {
 				a = fmt.Sprintf("%d", cur-1000+int64(r.Intn(3))-1) // down to the minimum +-1
 			}
@@ -637,6 +675,16 @@ func c10Run(r *rand.Rand, kind string, hist int) []c10Case {
 				c.LA = append(c.LA, ids.addr(tv.Address))
 			}
 			sort.Ints(c.LA)
+			for _, k := range sortedKeys(prev) {
+				if strings.HasPrefix(k, "st__t_") {
+					a := keys.Address{}
+					if a.UnmarshalText([]byte(k[len("st__t_"):])) == nil {
+						if v, ok := new(big.Int).SetString(strings.Trim(prev[k], "\""), 10); ok && v.IsInt64() && v.Sign() > 0 {
+							c.Staked = append(c.Staked, c10KV{ids.addr(a), v.Int64()})
+						}
+					}
+				}
+			}
 			for i, tv := range rep.valSet(h - 1).Validators {
 				if in.Absent[i] {
 					c.Absent = append(c.Absent, ids.addr(tv.Address))
@@ -860,9 +908,9 @@ func c10BlockinCoq(c *c10Case) string {
 }
 
 func c10CaseCoq(c *c10Case) string {
-	return fmt.Sprintf("mkcase %s %s %s %d %s %s %s %s %s %d",
+	return fmt.Sprintf("mkcase %s %s %s %d %s %s %s %s %s %d %s",
 		c10BlockinCoq(c),
-		c10KVs(c.Pg), c10Ns(c.Frozen), c.Bvd, c10KVs(c.Next), c10KVs(c.Ups), c10KVs(c.PgAfter), c10Bool(c.TmOk), c10KVs(c.NextAfter), c.Quiet)
+		c10KVs(c.Pg), c10Ns(c.Frozen), c.Bvd, c10KVs(c.Next), c10KVs(c.Ups), c10KVs(c.PgAfter), c10Bool(c.TmOk), c10KVs(c.NextAfter), c.Quiet, c10KVs(c.Staked))
 }
 
 const c10Header = "From stdpp Require Import gmap list.\nFrom Coq Require Import ZArith.\nFrom OL Require Import theories.Election theories.Tendermint theories.ElectionCheck.\nLocal Open Scope Z_scope.\n"
@@ -885,7 +933,7 @@ func c10Main(args []string) int {
 		must(ioutil.WriteFile(*child, bz, 0644))
 		return 0
 	}
-	kinds := []string{"e10", "unstake_all", "ghost", "frozen", "release", "absent_leaves:0", "restake", "refused_last", "absent_leaves:1", "absent_leaves:2", "mixed", "mixed", "mixed", "mixed", "mixed"}
+	kinds := []string{"e10", "unstake_all", "ghost", "frozen", "release", "absent_leaves:0", "restake", "refused_last", "absent_leaves:1", "absent_leaves:2", "restake_full:0", "restake_full:1", "restake_full:2", "restake_full:3", "mixed", "mixed", "mixed", "mixed"}
 	cases := []c10Case{}
 	for i := 0; i < *n; i++ {
 		kind := kinds[i%len(kinds)]
